@@ -27,7 +27,7 @@ type VacParams struct {
 }
 
 func genVac(r *rand.Rand) *VacParams {
-	mw := GenMW(r, MWGenOpts{MaxClients: 3, MaxStmts: 10, MaxKeys: 4, MaxCols: 2, Txns: true, Advance: true})
+	mw := GenMW(r, MWGenOpts{MaxClients: 3, MaxStmts: 10, MaxKeys: 4, MaxCols: 2, Txns: true, Advance: true, Skew: true})
 	mw.EPN = []int{2, 2, 3, 4, 0}[r.IntN(5)]
 	mw.Inter = 0
 	mw.ViewAfterCommit = true
